@@ -399,7 +399,8 @@ func cSnapshotReply(c *Check, rule string) {
 	}
 }
 
-func c05Extras(c *Check) {
+// c05MustSync — C05.M: Ready.MustSync is exactly "entries, vote or term changed".
+func c05MustSync(c *Check) {
 	p := c.P
 	mustSync := p.Func("raft", "MustSync")
 	getVote := p.Method("raftpb", "HardState", "GetVote")
@@ -437,6 +438,11 @@ func c05Extras(c *Check) {
 			c.Result(ok, "C05.M", "Ready.MustSync", fnName(s.Fn), p.site(s.Instr), "MustSync(r.hardState(), rn.prevHardSt, len(rd.Entries))", v.Key())
 		}
 	}
+}
+
+func c05Extras(c *Check) {
+	p := c.P
+	c05MustSync(c)
 	// C05.S snapshot promise
 	cSnapshotReply(c, "C05.S")
 	appliedSnap := p.Method("raft", "raft", "appliedSnap")
